@@ -158,9 +158,14 @@ package l1infotreesync
 //@   ensures[not-found-means-no-leaf] (result1 != nil && isErr(result1, db.ErrNotFound)) ==> l1LastIndex == -1
 //@   ensures[never-the-syncers-inconsistency-error] plainErr(result1)
 
-//@ func processEventInitL1InfoRootMap (tx, blockNumber, event)
-//@   trusted
+//@ extern github.com/russross/meddler.Insert@l1infotreesync.processEventInitL1InfoRootMap (db, table, src)
 //@   modifies stmtFail
+//@   ensures stmtFail == old(stmtFail) + ite(result == nil, 0, 1)
+//@   ensures plainErr(result)
+//@ func processEventInitL1InfoRootMap (tx, blockNumber, event)
+//@   props C07 C11 C14
+//@   modifies stmtFail
+//@   assert call:Insert arg0 == tx && arg1 == "l1info_initial"
 //@   ensures stmtFail == old(stmtFail) + ite(result == nil, 0, 1)
 //@   ensures plainErr(result)
 
